@@ -217,22 +217,22 @@ SC_PRIVATE = ["p0", "p1", "p2"]              # names used for nested functions o
 EXCLUDE = {"same_scope_nested_name_clash"}
 
 
-def scoped_specs(st):
-    gname = st.sampled_from(SC_GLOBALS * 2 + [SC_FREE])
+def scoped_specs(st, max_local_scopes=3):
+    gname = st.sampled_from(SC_GLOBALS * 3 + [SC_FREE])
     nname = st.sampled_from(SC_GLOBALS * 2 + [SC_FREE] + SC_PRIVATE)
     nested = st.fixed_dictionaries({
-        "name": nname, "rec": st.booleans(), "cap": st.sampled_from([False, False, True]),
+        "name": nname, "rec": st.sampled_from([True, True, False]), "cap": st.sampled_from([False, False, False, True]),
         "calls": st.sampled_from(SC_GLOBALS * 2 + [None])})
     defn = st.fixed_dictionaries({
         "nested": st.lists(nested, min_size=0, max_size=3, unique_by=lambda n: n["name"]),
-        "uses": st.lists(gname, min_size=0, max_size=2, unique=True),
+        "uses": st.lists(gname, min_size=1, max_size=2, unique=True),
         "dep": st.integers(-4, 4),  # which earlier visible scoped definition is called (mod count; <= 0: none)
         "noarg": st.booleans()})
 
     @st.composite
     def spec(draw):
         scopes = [{"level": "module", "shadows": [], "defs": draw(st.lists(defn, min_size=2, max_size=2))}]
-        for _ in range(draw(st.integers(2, 3))):
+        for _ in range(draw(st.integers(2, max_local_scopes))):
             scopes.append({"level": "local",
                            "shadows": draw(st.lists(st.sampled_from(SC_GLOBALS), max_size=1)),
                            "defs": draw(st.lists(defn, min_size=2, max_size=2))})
@@ -283,6 +283,23 @@ def scoped_normalise(spec, exclude=EXCLUDE):
                         n["name"] = free[0]
                         renamed += 1
     return spec, renamed
+
+
+def draw_scoped(st, pool_ctx, max_local_scopes):
+    """normalised specs (with the number of renamed nested functions) among 100 seeded draws that hold the
+    two targeted classes: several non-capturing nested functions pulling in different globals, and a
+    recursive non-capturing nested function whose name is used as a global name from another scope
+    (and in which at most a third of the definitions fail because they use the unbound name)"""
+    specs = []
+    want = {"several_pending_nested", "nested_name_used_in_other_scope", "mostly_well_formed"}
+
+    def keep(sp):
+        t = scoped_normalise(sp)
+        if want <= scoped_classes(t[0]):
+            specs.append(t)
+
+    harness.hyp_search(pool_ctx, scoped_specs(st, max_local_scopes), keep, max_examples=100, chunk=100, time_frac=1.0, extra_seed=5)
+    return specs
 
 
 def scoped_index(spec):
@@ -398,6 +415,10 @@ def scoped_classes(spec):
                                 out.add("nested_name_used_in_same_scope")
     if any(sc["shadows"] for sc in spec["scopes"]):
         out.add("local_shadows_module_function")
+    ids = list(scoped_index(spec))
+    ill = [d for d in ids if any(SC_FREE in scoped_index(spec)[x][1]["uses"] for x in scoped_closure(spec, d))]
+    if 3 * len(ill) <= len(ids):
+        out.add("mostly_well_formed")   # at most a third of the definitions use the unbound name
     return out
 
 
@@ -685,12 +706,9 @@ def worker(ctx):
     # the scoped section: definitions created in local Python scopes / holding nested functions (same in
     # every shard; a pure function of the seed).  The first draws of a Hypothesis run are the simplest
     # ones, so a few are drawn and the last one that holds the targeted classes is kept.
-    specs = []
-    want = {"several_pending_nested", "nested_name_used_in_other_scope"}
-    harness.hyp_search(pool_ctx, scoped_specs(st).map(scoped_normalise).filter(lambda t: want <= scoped_classes(t[0])),
-                       specs.append, max_examples=6, chunk=6, time_frac=1.0, extra_seed=5)
+    specs = draw_scoped(st, pool_ctx, ctx.params.get("local_scopes", 3))
     if not specs:
-        ctx.harness_error("no scoped pool section drawn")
+        ctx.harness_error("no scoped pool section with the targeted classes among 100 draws")
         return
     scoped, renamed = specs[-1]
     if renamed and ctx.shard == 0:
@@ -811,7 +829,7 @@ SPEC = harness.Spec(
                  "each history runs in its own interpreter process, so the session is exactly the history"],
     shards={"quick": 16, "thorough": 16},
     budget_s={"quick": 100, "thorough": 1200},
-    params={"quick": {"n": 60, "steps": 10}, "thorough": {"n": 1500, "steps": 14, "emulate": True}},
+    params={"quick": {"n": 60, "steps": 10, "local_scopes": 2}, "thorough": {"n": 1500, "steps": 14, "emulate": True}},
     min_nontrivial=5,
 )
 
